@@ -18,7 +18,7 @@ from inscripta.biocantor.gene.interval import AbstractFeatureInterval, Qualifier
 from inscripta.biocantor.io.bed import RGB, BED12
 from inscripta.biocantor.io.gff3.constants import GFF_SOURCE, NULL_COLUMN, BioCantorFeatureTypes, BioCantorQualifiers
 from inscripta.biocantor.io.gff3.rows import GFFAttributes, GFFRow
-from inscripta.biocantor.location import Location, Strand, SingleInterval, CompoundInterval
+from inscripta.biocantor.location import Location, Strand, SingleInterval, CompoundInterval, EmptyLocation
 from inscripta.biocantor.parent import Parent, SequenceType
 from inscripta.biocantor.sequence import Sequence, Alphabet
 from inscripta.biocantor.util.hashing import digest_object
@@ -392,7 +392,8 @@ class CDSInterval(AbstractFeatureInterval):
     @property
     def has_canonical_start_codon(self) -> bool:
         """Does this CDS have a canonical valid start? Requires a sequence be associated."""
-        return next(self.scan_codons()).is_canonical_start_codon
+        first_codon = next(self.scan_codons(), None)
+        return first_codon is not None and first_codon.is_canonical_start_codon
 
     def has_start_codon_in_specific_translation_table(
         self, translation_table: Optional[TranslationTable] = TranslationTable.DEFAULT
@@ -402,7 +403,8 @@ class CDSInterval(AbstractFeatureInterval):
 
         Defaults to the ``DEFAULT`` table, which is just ``ATG``.
         """
-        return next(self.scan_codons()).is_start_codon_in_specific_translation_table(translation_table)
+        first_codon = next(self.scan_codons(), None)
+        return first_codon is not None and first_codon.is_start_codon_in_specific_translation_table(translation_table)
 
     @property
     def has_valid_stop(self) -> bool:
@@ -766,6 +768,9 @@ class CDSInterval(AbstractFeatureInterval):
             # remove 0bp blocks here to avoid having to call optimize_blocks()
             if cleaned_rel_ends[i] != cleaned_rel_starts[i]
         ]
+        if not cleaned_blocks:
+            # this CDS does not contain a single complete codon
+            return EmptyLocation(), 0
         cleaned_location = CompoundInterval.from_single_intervals(cleaned_blocks)
 
         if relative_window is not None:
